@@ -382,7 +382,8 @@ class Resolver:
                     for t in n.targets:
                         if isinstance(t, ast.Attribute) and isinstance(t.value, ast.Name) and t.value.id == 'self':
                             ty = self.type_of(n.value, f)
-                            if ty and ty[0] in ('inst',) and (f.cls, t.attr) not in self.field_types:
+                            if ty and ty[0] in ('inst', 'func') and (f.cls, t.attr) not in self.field_types \
+                                    and not (ty[0] == 'func' and f.name != '__init__'):
                                 self.field_types[(f.cls, t.attr)] = ty
                                 self.field_sources[(f.cls, t.attr)] = f'{f.key}: {norm(n)}'
                                 changed = True
